@@ -39,15 +39,18 @@ CHECKS = {
         technique="Coq proof of robustness and answer-shape theorems over a Gallina model of the handlers + correspondence through the binary + binding/round-trip oracle"),
     "C14": dict(
         category="other",
-        text="Machine-checked for ALL documents (Props/C14.v, 10 theorems) over the models of hover.rs and signature_help.rs: "
-             "shape of every hover and signature-help answer (markdown = signature of the resolved table entry + doc comments over "
-             "the identifier's range; one parameter entry per parameter, activeParameter = commas before the cursor), no "
-             "identifier => no hover, no panic under the predicate cursor_pre (validated on every document). The hover half of "
-             "the full statement is refuted for the shadowing shapes (known finding C14-hover-local-before-global); the "
-             "signature-help half is stated, unproved. Decided per input: model = server at every occurrence/column and every "
-             "cursor position inside call argument lists; oracle from the derivation (binding, resolved types, doc comments).",
+        text="Machine-checked (Props/C14.v, 13 theorems) over the models of hover.rs and signature_help.rs. For EVERY valid "
+             "program - every abstract program of the grammar that is well-typed, every text that lexes to its tokens (every "
+             "layout), every identifier occurrence and every cursor column inside it - hover returns the signature text of the "
+             "entry the occurrence is bound to under SPL scoping (kind, name, ref marker, resolved type) followed by its doc "
+             "comments, over exactly the identifier's range (C14_hover_valid, C14_hover_valid_text; composes the C04 round trip, "
+             "the C03 no-false-positive theorem and the lexical conformance of C06). For ALL documents: shape of every hover and "
+             "signature-help answer (one entry per parameter, activeParameter = commas between `(` and the cursor), no identifier "
+             "=> no hover, totality. Stated, not proved: the signature-help half over valid programs, and the wording `document "
+             "without diagnostics` (needs completeness of the front end). Decided per input: model = server at every "
+             "occurrence/column and every cursor position inside call argument lists; oracle from the derivation.",
         design_ref="DESIGN.md sections 5 (C14) and 10.2",
-        technique="Coq proof of answer-shape and robustness theorems over Gallina models of the handlers + correspondence through the binary + scoping oracle"),
+        technique="Coq proof (hover: full functional statement for valid programs via the parser round trip and the typing theorems; signature help: answer shape) over Gallina models of the handlers + correspondence through the binary + scoping oracle"),
     "C15": dict(
         category="other",
         text="Machine-checked (Props/C15.v, 12 theorems) over the model of semantic_tokens.rs, for ALL documents satisfying the "
